@@ -149,3 +149,7 @@ Proof.
   - split; [intros []|lia].
   - rewrite in_app_iff, IH. cbn [In]. lia.
 Qed.
+
+(** sparse literal: the bitset with exactly the listed (distinct) positions; repeated positions
+    cancel (xor), which is how the implementation accumulates entries mod 2 *)
+Definition ofl (l : list N) : N := fold_right (fun i a => N.lxor (unit i) a) 0 l.
